@@ -8,7 +8,7 @@ def run(tier):
     c.mc("Canvas", "MC_Canvas", "MC_Canvas.cfg", workers=12, timeout=1500)
     nsh = 10 if tier == "quick" else 16
     traces = []
-    for k, sd in enumerate(vlib.seeds(tier, 6)):
+    for k, sd in enumerate(vlib.seeds(tier, 20)):
         traces += c.drive(exe, [["@OUT", tier, sd, i, nsh] for i in range(nsh)], tag="canvas%d" % k)
     bads = c.validate("Canvas", "Trace_Canvas", traces, timeout=3400, xmx="6g")
     c.judge(bads)
